@@ -21,8 +21,56 @@ EXPLANATION = (
 )
 
 
+def right_inverse_evaluated(repo: Repo, fi: FuncInfo):
+    """Run compute_right_pseudo_inverse (helpers inlined, own arithmetic) on the sample generators of C01: G X = I over
+    GF(2) with 0/1 entries; a generator without full row rank must be rejected."""
+    from ..constfold import Unfoldable
+    from ..frag import FragRaise, FragReturn, run_fragment
+    from .c01 import NULL_SPACE_SAMPLES, aliasing_swaps
+
+    funcs = {nm: f.node for nm, f in fi.module.functions.items() if nm != fi.name}
+    for f_ in [fi] + [fi.module.functions[nm] for nm in ("_gf2_row_reduce",) if nm in fi.module.functions]:
+        sw = aliasing_swaps(f_)
+        if sw:
+            return VIOLATION, f"`{unparse(sw[0])}` in {f_.name}: the right-hand sides are views, both rows end up equal instead of exchanged; the transformation becomes singular and G X != I", sw[0]
+    for G in NULL_SPACE_SAMPLES:
+        k, n = len(G), len(G[0])
+        try:
+            run_fragment(fi.body, {"matrix": [list(r) for r in G]}, {}, max_steps=400000, materialise=True, funcs=funcs)
+            return UNDECIDED, "no value returned", None
+        except FragReturn as r:
+            X = r.value
+        except FragRaise:
+            return VIOLATION, f"the full-rank generator {G} is rejected", None
+        except (Unfoldable, TypeError, IndexError) as exc:
+            return UNDECIDED, f"not evaluable ({exc})", None
+        if not (isinstance(X, list) and len(X) == n and all(isinstance(r_, list) and len(r_) == k for r_ in X)):
+            return UNDECIDED, f"result is not an {n} x {k} matrix", None
+        if any(x not in (0, 1, 0.0, 1.0) for r_ in X for x in r_):
+            return VIOLATION, f"for G = {G} the right inverse has entries outside {{0, 1}} ({[x for r_ in X for x in r_ if x not in (0, 1)][:3]}): the elimination is not carried out over GF(2); the entries grow with k and leave the range float32 represents exactly, after which `% 2` returns wrong message bits", None
+        prod = [[sum(G[i][t] * int(X[t][j]) for t in range(n)) % 2 for j in range(k)] for i in range(k)]
+        if prod != [[int(i == j) for j in range(k)] for i in range(k)]:
+            return VIOLATION, f"for G = {G} the returned X does not satisfy G X = I over GF(2) (G X = {prod}): inverse_encode returns wrong message bits for valid codewords", None
+    try:
+        run_fragment(fi.body, {"matrix": [[1, 1, 0], [1, 1, 0]]}, {}, max_steps=100000, materialise=True, funcs=funcs)
+        return VIOLATION, "a generator without full row rank is not rejected (no right inverse exists)", None
+    except FragRaise:
+        pass
+    except FragReturn:
+        return VIOLATION, "a generator without full row rank is answered with a matrix instead of being rejected (no right inverse exists)", None
+    except (Unfoldable, TypeError, IndexError) as exc:
+        return UNDECIDED, f"rank-deficient sample not evaluable ({exc})", None
+    return OK, f"G X = I over GF(2) with 0/1 entries on {len(NULL_SPACE_SAMPLES)} sample generators; a rank-deficient generator is rejected", None
+
+
 def rule_right_inverse(repo: Repo, rep: Report) -> int:
     fi = repo.func(LIN, "compute_right_pseudo_inverse")
+    est, edetail, enode = right_inverse_evaluated(repo, fi)
+    if est in (OK, VIOLATION):
+        rep.add("VERIFIED-RETURN", fi, "compute_right_pseudo_inverse evaluated on sample generator matrices", est, edetail, node=enode or fi.node)
+        lint_literal_fallback(rep, fi, "G2")
+        lint_value_keyed(rep, fi, rule="G1", allowed_literals={0, 1, -1, 2})
+        return 3
     n = verified_return_rule(rep, "VERIFIED-RETURN", fi, "matrix", "rinv", {"_gf2_row_reduce"})
     lint_literal_fallback(rep, fi, "G2")
     lint_value_keyed(rep, fi, rule="G1", allowed_literals={0, 1, -1, 2})
